@@ -137,7 +137,18 @@ def _findall(
                        (value_for_condition.startswith("'") and value_for_condition.endswith("'"))
                    ):
                     value_for_condition = value_for_condition[1:-1]
-                if (parent_node.lower() == value_for_condition.lower()) != equal_condition:
+                if isinstance(parent_node, str):
+                    is_equal = parent_node.lower() == value_for_condition.lower()
+                elif isinstance(parent_node, (int, float)):
+                    # Numeric node is compared as number, the way item access (n0dict._find) does:
+                    # the expected text is converted into the type of the node
+                    try:
+                        is_equal = parent_node == (float if isinstance(parent_node, float) else int)(value_for_condition)
+                    except ValueError:
+                        is_equal = False  # Expected text is not a number, so it is not equal to numeric node
+                else:
+                    is_equal = False  # None/dict/list have no text, so they are equal to no expected text
+                if is_equal != equal_condition:
                     # # n0print(f"CONDITION FAILED: {child_index}: {parent_node} {'==' if equal_condition else '!='} {value_for_condition}")
                     return None
                 else:
